@@ -570,7 +570,7 @@ def genPairFinish (s : State) (ss : Sess) (h mech : Nat) (pubT privT : Template)
      | .error rv => rOnly s rv
      | .ok pa =>
        match saveTemplate cdPriv (initAttrs cdPriv) privTpl OP.GENERATE privPriv t.soIn CKR.OK with
-       | .error rv => rOnly s rv
+       | .error rv => ({ s with counter := s.counter + 1 }, { rv := rv })      -- the public key had been created and given a handle; both are gone again, the handle number is used up
        | .ok va =>
          let material : List Nat := [0x120, 0x122, 0x123, 0x124, 0x125, 0x126, 0x127, 0x128, 0x11, 0x181, 0x130, 0x131, 0x132, 0x129]
          let pa1 := markUnk (postGenerate mech false pa) material
@@ -614,7 +614,10 @@ def stepGenPair (s : State) (h mech : Nat) (pubT privT : Template) (oRv : RV) : 
           let a2 := Gen.haveWrite st privTok privPriv
           if a1 != CKR.OK then rOnly s a1
           else if a2 != CKR.OK then rOnly s a2
-          else if preGenErrors.contains oRv then rOnly s oRv
-          else genPairFinish s ss h mech pubT privT t dkt pubTok pubPriv privTok privPriv
+          else
+            -- what the key generator itself refuses is observed and happens before any object exists; what the TEMPLATES make fail is computed - and when the private
+            -- template is the one that fails, the public key had already been created and given a handle (see genPairFinish)
+            let r := genPairFinish s ss h mech pubT privT t dkt pubTok pubPriv privTok privPriv
+            if preGenErrors.contains oRv && r.2.rv != oRv then rOnly s oRv else r
 
 end Shm
